@@ -59,7 +59,12 @@ Definition judge_C08 (G : cfg) (stream : list nat)
   worst_code (check (cfg_wf_b G) 9 ::
     map (fun p => let '(k, used, oG', unch) := p in judge_phase k G used oG' unch stream (10 * k)) phases ++
     [ match onullable, cfg_nullable G with Some s, Some m => check (seteqb s m) 70 | _, _ => 70 end;
-      check (forallb (fun e => let '(x, W, o) := e in match o with Some l => eqb l (expand_nullable x W) | None => false end) oexpand) 71;
+      (* expand_nullable_variables: the SET of expansions is what the epsilon-removal phase depends on; their order in the returned
+         list (and repetitions) is a choice of the implementation - a different order is reported on the informational layer only *)
+      worst_code (map (fun e => let '(x, W, o) := e in
+                        match o with
+                        | Some l => if eqb l (expand_nullable x W) then 0 else if seteqb l (expand_nullable x W) then 1 else 71
+                        | None => 71 end) oexpand);
       check (forallb (fun e => let '(A, o) := e in match o, cfg_derivable G A with Some s, Some m => seteqb s m | _, _ => false end) oderivable) 72 ]).
 
 Definition explain_C08 (G : cfg) (k : nat) (used : list nat) := (model_phase k used G, cfg_nullable G).
